@@ -6,10 +6,72 @@ use crate::gen;
 use crate::rng::Rng;
 use crate::Out;
 
+/// decode on a worker thread under a watchdog: a decoder that does not terminate shows up as the
+/// output `hang` for exactly that input (the abandoned worker keeps spinning until process exit).
+mod watchdog {
+    use std::sync::mpsc::{channel, Receiver, Sender};
+    use std::sync::Mutex;
+    use std::time::Duration;
+
+    use dns_types::protocol::types::Message;
+
+    type Job = Vec<u8>;
+    type Res = Result<Message, dns_types::protocol::deserialise::Error>;
+
+    struct Worker {
+        tx: Sender<Job>,
+        rx: Receiver<std::thread::Result<Res>>,
+    }
+
+    static WORKER: Mutex<Option<Worker>> = Mutex::new(None);
+
+    fn spawn() -> Worker {
+        let (tx, jrx) = channel::<Job>();
+        let (rtx, rx) = channel();
+        std::thread::Builder::new()
+            .stack_size(2 * 1024 * 1024)
+            .spawn(move || {
+                while let Ok(job) = jrx.recv() {
+                    let r = std::panic::catch_unwind(|| Message::from_octets(&job));
+                    if rtx.send(r).is_err() {
+                        break;
+                    }
+                }
+            })
+            .unwrap();
+        Worker { tx, rx }
+    }
+
+    pub enum Outcome {
+        Done(Res),
+        Panic,
+        Hang,
+    }
+
+    pub fn decode(bytes: &[u8]) -> Outcome {
+        let mut g = WORKER.lock().unwrap();
+        if g.is_none() {
+            *g = Some(spawn());
+        }
+        let w = g.as_ref().unwrap();
+        w.tx.send(bytes.to_vec()).unwrap();
+        match w.rx.recv_timeout(Duration::from_secs(10)) {
+            Ok(Ok(r)) => Outcome::Done(r),
+            Ok(Err(_)) => Outcome::Panic,
+            Err(_) => {
+                *g = None; // abandon the spinning (or dead) worker
+                Outcome::Hang
+            }
+        }
+    }
+}
+
 pub fn decode_case(bytes: &[u8], out: &mut Out) {
-    let res = match Message::from_octets(bytes) {
-        Ok(m) => format!("ok {}", c::message(&m)),
-        Err(e) => format!("err {e:?}"),
+    let res = match watchdog::decode(bytes) {
+        watchdog::Outcome::Done(Ok(m)) => format!("ok {}", c::message(&m)),
+        watchdog::Outcome::Done(Err(e)) => format!("err {e:?}"),
+        watchdog::Outcome::Panic => "panic".to_string(),
+        watchdog::Outcome::Hang => "hang".to_string(),
     };
     out.case(&["decode", &c::hex(bytes)], &res);
 }
